@@ -50,7 +50,7 @@ pub struct ConcDesc {
     pub fine: Option<(usize, usize, u64)>,
     /// anchored instruction-level window (sched::set_anchor): (thread, hook site, n, k)
     #[serde(default)]
-    pub anchor: Option<(usize, String, u64, u64)>,
+    pub anchor: Option<(usize, String, u64, u64, u64)>,
     #[serde(default)]
     pub schedule: Option<Vec<u8>>,
 }
@@ -538,12 +538,20 @@ pub fn generate(run_seed: u64, thorough: bool, cold_race: bool) -> ConcDesc {
         compilers,
         sb_ops: vec![],
         fine: None,
-        // one cold race in three: one thread is single-stepped from one of its interning points on
+        // one cold race in six: one thread is single-stepped from one of its interning points on
         // and preempted up to 300 instructions later - inside the interner, where a lookup and an
         // insert may be two steps
-        anchor: if cold_race && rng::derive(run_seed, &[rng::label("anchor")]) % 3 == 0 {
+        anchor: if cold_race && rng::derive(run_seed, &[rng::label("anchor")]) % 6 == 0 {
             let mut ar = Rng::new(rng::derive(run_seed, &[rng::label("anchor-k")]));
-            Some((ar.below(2) as usize, "intern".to_string(), ar.below(900), 1 + ar.below(300)))
+            // mostly "right after the j-th atomic instruction" (where a lock of an un-hooked primitive
+            // has just been taken or given back), sometimes "after k instructions"; early visits
+            // of the site more often than late ones (names nobody has interned yet come early)
+            let nth = if ar.chance(1, 2) { ar.below(250) } else { ar.below(1500) };
+            if ar.chance(3, 4) {
+                Some((ar.below(2) as usize, "intern".to_string(), nth, 3000, 1 + ar.below(6)))
+            } else {
+                Some((ar.below(2) as usize, "intern".to_string(), nth, 1 + ar.below(600), 0))
+            }
         } else {
             None
         },
@@ -1189,6 +1197,7 @@ pub fn execute(d: &ConcDesc, keep_trace: bool) -> RunResult {
     c.insert("fine_window_configured".into(), d.fine.is_some() as u64);
     c.insert("anchored_window_configured".into(), d.anchor.is_some() as u64);
     c.insert("anchored_window_armed".into(), sched::ANCHOR_ARMED.load(SeqCst));
+    c.insert("anchored_window_fired_after_atomic_instruction".into(), sched::ANCHOR_FIRED_ATOMIC.load(SeqCst));
     c.insert("fine_window_preemptions_fired".into(), sched::FINE_FIRED.load(SeqCst));
     c.insert("solo_reference_calls".into(), n_solo);
     c.insert("runs_with_fresh_package_for_the_threads".into(), fresh_pkg as u64);
